@@ -109,6 +109,7 @@ type Exec struct {
 	nReturns      int
 	replay        *ReplayInfo
 	loopHead      *State
+	factSink      *State // receives type-invariant facts discovered while evaluating contract expressions
 }
 
 func (x *Exec) fail(pos token.Pos, format string, args ...interface{}) {
